@@ -365,7 +365,7 @@ CONTRACTS += [
          'positions_kept': 'implies(DISTINCT_LABELS(data[0]), forall(data[0], lambda p: same(result[1]["bits"][p[0]], p[1])))',
          'nothing_else': 'forall(result[1]["bits"], lambda k, v: exists(data[0], lambda p: p[0] == k and same(p[1], v)))'},
         ['C05'],
-        requires=['forall(data[0], lambda p: is_tuple(p) and len(p) == 2 and is_str(p[0]))'],
+        requires=['forall(data[0], lambda p: is_tuple(p) and len(p) == 2 and is_str(p[0]) and not absent(p[1]))'],
         loops={1: {'invariant': [
             'forall(lambda j: implies(0 <= j and j < _i, data[0][j][0] in outDict["bits"]))',
             'forall(outDict["bits"], lambda k, v: exists(data[0], lambda p: p[0] == k and same(p[1], v)))',
@@ -592,7 +592,7 @@ def defval_contract(kind, ensures, requires=()):
                     requires=DV_REQ + ['len(objname) > 0'] + list(requires), defs=LITDEFS,
                     setup=defval_setup(kind), ensures=ens, returns=Any,
                     loops={1: {'invariant': ['is_list(defvalBits)', 'forall(seq(defvalBits), lambda p: is_tuple(p) and '
-                                             'len(p) == 2 and is_str(p[0]))']}},
+                                             'len(p) == 2 and is_str(p[0]) and not absent(p[1]))']}},
                     inline=['IntermediateCodeGen.transOpers'],
                     raises={'PySmiSemanticError': True}).variant(kind)
 
@@ -637,3 +637,4 @@ CONTRACTS += [
                  # symbol tables give BITS types the list of their named bits (symtable.genBits)
                  'implies(%s == "Bits", is_list(%s))' % (BT, SUBS)]),
 ]
+CONTRACTS[-1].tier = 'thorough'      # ~300 paths with string-heavy path conditions: minutes
